@@ -238,9 +238,10 @@ def token_nodes():
     for v in vals:
         out.append((1, Node("O", [Node(v)], [1])))
         out.append((2, Node("A", [Node(v)], [])))
-    # nested position (an integer as the LAST value: a non-minimal integer makes every later position symbolic)
-    out.append((1, Node("O", [Node("T"), Node("O", [Node("I4")], [0])], [0, 1])))
-    out.append((2, Node("A", [Node("S2"), Node("A", [Node("I8")], [])], [])))
+    # integers only as single values: whether an integer is in shortest form is symbolic, so after an integer the
+    # error state and hence every later position is symbolic and the query degenerates (300 s .. no verdict)
+    out.append((1, Node("O", [Node("T"), Node("O", [Node("S2")], [0])], [0, 1])))
+    out.append((2, Node("A", [Node("S2"), Node("A", [Node("D")], [])], [])))
     return out
 
 
@@ -415,8 +416,9 @@ def plan_C03(tier):
             for L in (127, 128, 300):
                 for root in (1, 2):
                     qs.append(bigbuf_query(3, root, kind, L))
-    qs += shape_variant_queries(3, 1, 6 if tier == "quick" else 8, variants=("full",), scalars=("I1", "S1"))
-    qs += shape_variant_queries(3, 2, 5 if tier == "quick" else 7, variants=("full",), scalars=("I1", "S1"))
+    qs += shape_variant_queries(3, 1, 6 if tier == "quick" else 8, variants=("full",), scalars=("T", "S1"), witness_every=4)
+    qs += shape_variant_queries(3, 2, 5 if tier == "quick" else 7, variants=("full",), scalars=("T", "S1"), witness_every=4)
+    qs += shape_variant_queries(3, 2, 4 if tier == "quick" else 5, variants=("full",), scalars=("B1", "D"), witness_every=4)
     # getter neutrality from an arbitrary state
     qs.append(step_query(3, 15, 6, 2, checks="func"))
     # every length width / integer width with a symbolic claimed buffer size (lengths up to INT32_MAX)
@@ -597,8 +599,9 @@ def plan_C10(tier):
             for L in (127, 128):
                 for root in (1, 2):
                     qs.append(bigbuf_query(10, root, kind, L))
-    qs += shape_variant_queries(10, 1, 6 if tier == "quick" else 8, variants=("full",), scalars=("I1", "S1"))
-    qs += shape_variant_queries(10, 2, 5 if tier == "quick" else 7, variants=("full",), scalars=("I1", "S1"))
+    qs += shape_variant_queries(10, 1, 6 if tier == "quick" else 8, variants=("full",), scalars=("T", "S1"), witness_every=4)
+    qs += shape_variant_queries(10, 2, 5 if tier == "quick" else 7, variants=("full",), scalars=("T", "S1"), witness_every=4)
+    qs += shape_variant_queries(10, 2, 4 if tier == "quick" else 5, variants=("full",), scalars=("B1", "D"), witness_every=4)
     for (s, n, root) in ([(["GA", "N", "N", "LA"], 4, 2)] if tier == "quick" else
                          [(["GA", "N", "N", "LA"], 5, 2), (["GO", "N", "N", "LO"], 7, 1), (["GA", "N", "N", "N", "LA"], 6, 2),
                           (["GA", "N", "GA", "N", "LA", "N", "LA"], 6, 2)]):
